@@ -45,6 +45,15 @@ CFG = {
   'assumptions': ['hints that carry an etype name the requested etype (theorem hypothesis hints_simple)'],
   'partial': 'nfold_impl_spec not proved; large iteration counts sampled',
  },
+ 'C12': {
+  'level': 'Theorems for every behaviour assignment, every number of KDCs, every server order and all three transport preferences: fail-over completeness (a working endpoint over a permitted transport + all others dead => an answer is returned), KRB-ERROR surfacing (first live endpoint of the first transport; only response-too-big over UDP falls back to TCP), soundness of surfaced codes, failure when nothing works, and at most one attempt per endpoint. Tie to the code: real loopback UDP/TCP endpoints with the six behaviours per (KDC, transport); result class, reply identity and the attempts seen by the endpoints are compared with the extracted model under the server order recovered from the observed attempts.',
+  'note': 'Partial: socket time-outs, short reads of the 4-byte TCP header and DNS SRV look-up are runtime behaviour the model cannot exhibit (the 5 s deadlines are exercised by the silent endpoints). sendToKDC is reached through a verif-tagged export.',
+  'rule': 'every assignment of {answers, refuses, closes early / empty datagram (two TCP variants), silent, KRB-ERROR 6/24, response-too-big on UDP} to the UDP and TCP endpoint of 1 KDC x 3 modes of udp_preference_limit {1, >= request, < request} (silent+silent skipped in quick), 140 sampled assignments for 2 KDCs and 40 for 3 (<=1 silent endpoint each in quick); thorough: 1500 + 400 with <= 2 silent.',
+  'trusted': [GO_EXT + ' (net, time)', 'loopback endpoint simulator in harness/cmd/run/c12.go', 'verif-tagged export client.VerifSendToKDC'],
+  'assumptions': ['a refused connection is not observable by the simulator: attempts are compared on the visible endpoints'],
+  'partial': 'socket timing is exercised, not modelled',
+  'timeout': 600,
+ },
  'C14': {
   'level': 'Theorems (coq/props/C14.v): the parser reads every file of the MIT keytab grammar (both versions, holes, optional 32-bit kvno) to exactly the entries written; Unmarshal(Marshal kt) = kt for every representable keytab; key look-up is sound, complete and prefers the newest entry; the parser is total. The model is tied to the code by running the extracted model and the implementation on the same generated files, keytabs and look-ups on every run.',
   'note': 'Trusted: Coq kernel, extraction (ExtrOcamlBasic), the harness and its independent keytab writer; the model is hand-written and validated by the correspondence stream, not generated. Version 1 byte order is little-endian as on this platform.',
